@@ -349,16 +349,20 @@ theorem wanted_isSome {d : Defects} {f : Nat → Nat} (hI : d.ingestIgnoresTombs
       (!(abs dst).dead n.id && match (abs dst).ver n.id with
         | none => true
         | some v => !decide (vle (n.mdate, n.sig) v)) := by
-  have hany : dst.ntombs.any (fun t => decide (t.id = n.id) && (!d.syncDeletionRoomScoped || decide (t.room = n.room))) =
+  have hany : (dst.ntombs.any (fun t => decide (t.id = n.id)) &&
+      dst.ntombs.any (fun t => decide (t.id = n.id) && (!d.syncDeletionRoomScoped || decide (t.room = n.room)))) =
       dst.ntombs.any (fun t => decide (t.id = n.id)) := by
-    rcases hR with hR | ⟨ht, hn⟩
-    · simp [hR]
-    · rw [Bool.eq_iff_iff]
-      simp only [List.any_eq_true, Bool.and_eq_true, decide_eq_true_eq, Bool.or_eq_true, Bool.not_eq_eq_eq_not,
-        Bool.not_true]
-      constructor
-      · rintro ⟨t, h1, h2, _⟩; exact ⟨t, h1, h2⟩
-      · rintro ⟨t, h1, h2⟩; exact ⟨t, h1, h2, Or.inr (by rw [ht t h1, hn, h2])⟩
+    have hany : dst.ntombs.any (fun t => decide (t.id = n.id) && (!d.syncDeletionRoomScoped || decide (t.room = n.room))) =
+        dst.ntombs.any (fun t => decide (t.id = n.id)) := by
+      rcases hR with hR | ⟨ht, hn⟩
+      · simp [hR]
+      · rw [Bool.eq_iff_iff]
+        simp only [List.any_eq_true, Bool.and_eq_true, decide_eq_true_eq, Bool.or_eq_true, Bool.not_eq_eq_eq_not,
+          Bool.not_true]
+        constructor
+        · rintro ⟨t, h1, h2, _⟩; exact ⟨t, h1, h2⟩
+        · rintro ⟨t, h1, h2⟩; exact ⟨t, h1, h2, Or.inr (by rw [ht t h1, hn, h2])⟩
+    rw [hany, Bool.and_self]
   unfold wanted
   simp only [hI, Bool.not_false, Bool.true_and, abs]
   rw [hany]
